@@ -110,3 +110,14 @@ func vcyc(value, n int) int {
 //@   requires desc != nil
 //@   ensures result != ""
 //@   ensures desc.Fallback != "" ==> result == desc.Fallback
+
+// Counter Styles 3 §2 "generate a counter representation", step 4 (pad): the number of
+// pad symbols is the pad length minus the length of the initial representation, minus —
+// for a negative value of a style that uses the negative sign — the lengths of BOTH parts
+// of the negative sign; step 5: prefix + representation + suffix.
+//@ func (CounterStyle).renderValue
+//@   props C19
+//@   modifies anything
+//@   call Repeat#1 assert arg1 == pad.Int - len(initial) - ite(isNegative && useNegative, len(negativePrefix) + len(negativeSuffix), 0)
+//@   unclaimed call-additive@1-pre1 "needs the data invariant the additive-symbols validator establishes (weights >= 0) for every style of the map, after extends merging"
+//@   unclaimed call-numeric@1-pre1 "needs the data invariant of Validate (numeric styles have symbols) for every style of the map, after extends merging"
